@@ -11,7 +11,9 @@ use swc_common::{util::take::Take, Span, Spanned, SyntaxContext};
 use swc_ecma_ast::*;
 use swc_ecma_visit::{Visit, VisitMut, VisitMutWith};
 
-use super::transform_status::TransformResult;
+use super::{
+    function_prototype_transform::FunctionPrototypeTransform, transform_status::TransformResult,
+};
 
 struct OptChainVisitor<'a> {
     pub assignment: Option<Expr>,
@@ -227,7 +229,11 @@ impl VisitMut for OptChainVisitor<'_> {
                             if let MemberProp::Ident(method_ident) = &member_expr.prop {
                                 let prop_name = &method_ident.sym;
 
-                                if self.csi_methods.get(prop_name).is_some() {
+                                // X?.prototype.m(..) is never instrumented (see CallExprTransform):
+                                // lowering it would modify the file without any hook call
+                                if self.csi_methods.get(prop_name).is_some()
+                                    && !object_is_prototype(&member_expr.obj)
+                                {
                                     self.found = true;
 
                                     expr.visit_mut_with(self);
@@ -262,6 +268,19 @@ impl OptChainVisitor<'_> {
             Expr::Member(member_expr) => member_expr.obj.visit_mut_with(self),
             _ => {}
         }
+    }
+}
+
+fn object_is_prototype(obj: &Expr) -> bool {
+    match obj {
+        Expr::Member(member) => FunctionPrototypeTransform::member_prop_is_prototype(member),
+        Expr::OptChain(opt_chain) => match &*opt_chain.base {
+            OptChainBase::Member(member) => {
+                FunctionPrototypeTransform::member_prop_is_prototype(member)
+            }
+            _ => false,
+        },
+        _ => false,
     }
 }
 
